@@ -16,10 +16,10 @@ TECHNIQUE = ("runtime ground-truth monitor: harness forward simulator (closed-fo
              "savegrains, and scripts/makemap.py) -> refined UBI/translation/labels/saved h,k,l compared with the generating values")
 LEVEL_TEXT = ("Exploration: 1..5 strained grains (<=5e-3) at |t|<=500um, geometry classes of C01 (all flips, pixel signs, tilts, "
               "wedge, chi, omegasign), omega floated or as observed, starts perturbed by 0.1-0.5 deg and <=50um; exact (noise-free) "
-              "peaks so the optimum is the truth. Every scenario checks recovered UBI (1e-5 rel), translation (2um), per-peak label = "
+              "peaks so the optimum is the truth. Every scenario checks the refined state against the truth on the optimiser's own objective (excess <= 0.3 in 1e6<drlv2>), UBI (1e-4 rel), translation (10um), per-peak label = "
               "generator, saved hkl = simulated hkl, saved files = in-memory values to print precision.")
 LEVEL_NOTE = ("Trusts the harness simulator (cross-checked against the C01 model to 2e-15) and the stated optimiser tolerances "
-              "(design probe: 3e-7 / 0.3um observed); peak files carry 4 decimals.")
+              "(empirical: worst observed 6e-6 / 3.4um / 0.031; thresholds 3-10x above); peak files carry 4 decimals.")
 
 RULE = ("a scenario = (geometry class bits+flip, n grains, OmFloat, perturbation); non-trivial = geometry has >= 2 switches on or "
         ">= 2 grains; distinct = (flip, bits, ngrains, omfloat)")
@@ -27,6 +27,23 @@ RULE = ("a scenario = (geometry class bits+flip, n grains, OmFloat, perturbation
 
 def quiet():
     return contextlib.redirect_stdout(io.StringIO())
+
+
+def objective_terms(p, sc, fc, om, ubi, t, omfloat):
+    """per-peak squared hkl error with the harness geometry model; with omfloat the component of the
+    g error along the omega rotation direction (z x g) is removed first"""
+    g = np.asarray(geom.forward(p, sc, fc, om, t)["g"], float)
+    ubi = np.asarray(ubi, float)
+    h = g @ ubi.T
+    ih = np.rint(h)
+    dg = g - ih @ np.linalg.inv(ubi).T
+    if omfloat:
+        e = np.cross(np.array([0, 0, 1.0]), g)
+        nrm = np.sqrt((e * e).sum(axis=1))
+        e = e / np.where(nrm > 0, nrm, 1)[:, None]
+        dg = dg - (dg * e).sum(axis=1)[:, None] * e
+    d = dg @ ubi.T
+    return (d * d).sum(axis=1)
 
 
 def one_scenario(run, seed, idx, mods, use_script=False):
@@ -85,6 +102,17 @@ def one_scenario(run, seed, idx, mods, use_script=False):
             g = grain.grain(np.linalg.inv(dR @ UB), translation=t + r.uniform(-50, 50, 3))
             start.append(g)
         grain.write_grain_file(ubi, start)
+        # Is the single-pass assignment well posed?  With the *starting* grains every peak must be
+        # within tolerance of its generator and of no other grain; otherwise the flow (which fixes
+        # labels before refining) cannot be expected to sort it out (DESIGN.md Corrections).
+        amb = 0
+        e_start = np.array([objective_terms(p, sc, fc, om, g_.ubi, g_.translation, False) for g_ in start])
+        for g in range(ng):
+            mine = gid == g
+            others = np.delete(e_start, g, axis=0)[:, mine] if ng > 1 else np.full((1, int(mine.sum())), 9.0)
+            amb += int(((e_start[g, mine] >= 0.9 * tol * tol) | (others.min(axis=0) < 1.1 * tol * tol)).sum())
+        if amb:
+            run.count("scenarios_ambiguous_at_start")
         if use_script:
             cmd = [PY, os.path.join(REPO, "scripts", "makemap.py"), "-p", par, "-u", ubi, "-U", out, "-f", flt,
                    "-t", str(tol), "--no_sort", "--omega_slop", "0.25"]
@@ -120,7 +148,9 @@ def one_scenario(run, seed, idx, mods, use_script=False):
             V("saved:rows", "peak file rows %d != %d" % (new.nrows, n))
             return
         run.count("peaks_checked", n)
-        if not np.array_equal(lab, gid):
+        if not np.array_equal(lab, gid) and amb:
+            run.count("mislabelled_in_ambiguous_scenarios", int((lab != gid).sum()))
+        elif not np.array_equal(lab, gid):
             k = int(np.nonzero(lab != gid)[0][0])
             V("labels:not-generator", "peak %d simulated from grain %d is labelled %d (%d of %d wrong)"
               % (k, gid[k], lab[k], int((lab != gid).sum()), n), peak=k)
@@ -129,20 +159,44 @@ def one_scenario(run, seed, idx, mods, use_script=False):
             if not np.array_equal(np.round(h).astype(int), hkl):
                 k = int(np.nonzero((np.round(h).astype(int) != hkl).any(axis=1))[0][0])
                 V("saved:hkl", "peak %d saved hkl %r != simulated %r" % (k, h[k].tolist(), hkl[k].tolist()), peak=k)
-        # --- recovered values
+        # --- recovered values.  "Within the optimiser's numerical tolerance": the position search is a
+        # Nelder-Mead simplex capped at 100 iterations that starts with 0.2um steps and keeps the
+        # last *evaluated* point; measured on the unchanged tree over 540 unambiguous grains from
+        # starts 50um/0.5deg off: objective excess <= 0.031 (1e6.<drlv2>), translation <= 3.4um,
+        # UBI <= 6e-6 relative.  Thresholds are set ~3-10x above that (DESIGN.md Corrections);
+        # the worst values of every run are written to the evidence.
+        okl = np.array_equal(lab, gid)
         for g in range(ng):
             UB_t, t_t = grains[g]
             ubi_t = np.linalg.inv(UB_t)
             got = saved[g]
             eu = np.abs(got.ubi - ubi_t).max() / np.abs(ubi_t).max()
             et = np.abs(np.asarray(got.translation) - t_t).max()
+            mine = gid == g
+            scr, fcr, omr = np.asarray(new.sc)[mine], np.asarray(new.fc)[mine], np.asarray(new.omega)[mine]
+            f_ref = 1e6 * float(objective_terms(p, scr, fcr, omr, got.ubi, got.translation, omfloat).mean())
+            f_tru = 1e6 * float(objective_terms(p, scr, fcr, omr, ubi_t, t_t, omfloat).mean())
+            run.count("grains_checked")
+            if amb or not okl:
+                run.count("grains_in_ambiguous_scenarios")
+                continue
             run.setmax("worst_ubi_rel_err", float(eu))
             run.setmax("worst_translation_err_um", float(et))
-            run.count("grains_checked")
-            if not eu <= 1e-5:
-                V("recovered:ubi", "grain %d UBI relative error %.3g > 1e-5" % (g, eu), grain=g)
-            if not et <= 2.0:
-                V("recovered:translation", "grain %d translation error %.3g um > 2 (got %r want %r)"
+            run.setmax("worst_objective_excess", float(f_ref - f_tru))
+            run.count("grains_judged")
+            if not f_ref <= f_tru + 0.3:
+                V("recovered:objective", "grain %d: refined state has gof %.3g, truth %.3g (1e6.<drlv2>), excess > 0.3; "
+                  "ubi rel err %.3g, translation err %.3g um" % (g, f_ref, f_tru, eu, et), grain=g)
+            # saved real-valued hkl of this grain's peaks must be (nearly) the integers they were simulated from
+            hr = np.array([new.hr, new.kr, new.lr]).T[mine]
+            dh = float(np.abs(hr - hkl[mine]).max())
+            run.setmax("worst_saved_hkl_real_err", dh)
+            if not dh <= 5e-3:
+                V("saved:hkl-real", "grain %d: saved hr,kr,lr differ from the simulated integers by %.3g" % (g, dh), grain=g)
+            if not eu <= 1e-4:
+                V("recovered:ubi", "grain %d UBI relative error %.3g > 1e-4" % (g, eu), grain=g)
+            if not et <= 10.0:
+                V("recovered:translation", "grain %d translation error %.3g um > 10 (got %r want %r)"
                   % (g, et, list(got.translation), t_t.tolist()), grain=g)
             if mem is not None:
                 gm = mem.grains[(g, flt)]
@@ -171,6 +225,6 @@ def check(run, replay=None):
         one_scenario(run, run.seed, i, mods)
     for i in range(2 if run.tier == "quick" else 24):
         one_scenario(run, run.seed, 1000 + i, mods, use_script=True)
-    run.require_counter("grains_checked", 20)
+    run.require_counter("grains_judged", 20)
     run.require_counter("peaks_checked", 1000)
     run.require_counter("makemap_script_runs", 1)
